@@ -364,6 +364,114 @@ def container_block(rep, r, tier):
     return n
 
 
+def same_class_and_model_params_block(rep, r, tier):
+    """(a) the SAME model class on both sides of an element-wise conversion, with a rule that addresses a field of that class
+    (link from a parameter, link_constant, link between two of its fields, link_function): the rule applies wherever the
+    model is converted - as a plain field, inside Optional, iterables and dict values, and as the converter's own
+    argument.  (b) an extra parameter that is itself a model and feeds a nested destination model: the nested fields are
+    not top-level, so they take the same-named fields of THAT parameter, never another parameter of the same name
+    (only from_param reaches them)."""
+    from typing import Dict, List, Optional, Tuple
+
+    from adaptix import P
+    from adaptix.conversion import from_param, impl_converter, link, link_constant, link_function
+
+    @dataclass
+    class Item:
+        sku: int
+        price: int
+        discount: int
+
+    n = 0
+
+    def report(sig, what, **kw):
+        rep.violation(f"same-class:{sig}", "property-violated", dict(kw, what=what))
+
+    rules = {
+        "from_param": ([link(from_param("discount"), P[Item].discount)], lambda it, p: Item(it.sku, it.price, p)),
+        "constant": ([link_constant(P[Item].discount, value=0)], lambda it, p: Item(it.sku, it.price, 0)),
+        "swap": ([link(P[Item].price, P[Item].discount), link(P[Item].discount, P[Item].price)], lambda it, p: Item(it.sku, it.discount, it.price)),
+        "function": ([link_function(lambda it: it.price * 2, P[Item].price)], lambda it, p: Item(it.sku, it.price * 2, it.discount)),
+    }
+    shapes = {
+        "plain": (Item, Item, lambda f, v: f(v), lambda mk: mk()),
+        "list": (List[Item], List[Item], lambda f, v: [f(x) for x in v], lambda mk: [mk(), mk()]),
+        "list->tuple": (List[Item], Tuple[Item, ...], lambda f, v: tuple(f(x) for x in v), lambda mk: [mk(), mk(), mk()]),
+        "optional": (Optional[Item], Optional[Item], lambda f, v: None if v is None else f(v), lambda mk: mk()),
+        "dict": (Dict[str, Item], Dict[str, Item], lambda f, v: {k: f(x) for k, x in v.items()}, lambda mk: {"a": mk(), "b": mk()}),
+        "list-of-list": (List[List[Item]], List[List[Item]], lambda f, v: [[f(x) for x in y] for y in v], lambda mk: [[mk()], [mk(), mk()]]),
+    }
+    for rname, (recipe, want_item) in rules.items():
+        for sname, (ST, DT, fmap, mkval) in shapes.items():
+            S = make_dataclass("SBox", [("items", ST), ("k", int)])
+            D = make_dataclass("DBox", [("items", DT), ("k", int)])
+            for where in ("field", "top"):
+                if where == "top" and sname == "plain":
+                    continue        # Item is then the top-level destination: the parameter `discount` rightly feeds its field
+                ns = {"S": S, "D": D, "ST": ST, "DT": DT}
+                exec("def stub(o: S, discount: int) -> D: ..." if where == "field" else "def stub(o: ST, discount: int) -> DT: ...", ns)  # noqa: S102
+                try:
+                    conv = impl_converter(recipe=recipe)(ns["stub"])
+                except Exception as e:  # noqa: BLE001
+                    report(f"creation:{rname}:{sname}", f"creating the converter raises {type(e).__name__}: {str(e)[:160]}", where=where)
+                    continue
+                for _ in range(2 if tier == "quick" else 10):
+                    v = mkval(lambda: Item(r.randint(1, 9), r.randint(10, 49), r.randint(50, 59)))
+                    pv = r.randint(100, 199)
+                    n += 1
+                    try:
+                        got = conv(S(v, 1), pv) if where == "field" else conv(v, pv)
+                    except Exception as e:  # noqa: BLE001
+                        got = f"raises {type(e).__name__}: {str(e)[:80]}"
+                    exp_items = fmap(lambda it: want_item(it, pv), v)
+                    exp = D(exp_items, 1) if where == "field" else exp_items
+                    if got != exp:
+                        report(f"{rname}:{sname}", f"Item -> Item with a rule on a field of Item ({rname}), reached through {sname} "
+                               f"({'a model field' if where == 'field' else 'the converter argument'}): the rule is not applied as it is for "
+                               "a plain field", source=repr(v), parameter=pv, expected=repr(exp), got=repr(got))
+                        break
+
+    # ---- (b) model-typed extra parameters
+    names = ["name", "id", "code"]
+    for shared in names:
+        other = [x for x in names if x != shared]
+        Author = make_dataclass("Author", [(shared, int), (other[0], int)])
+        AuthorDTO = make_dataclass("AuthorDTO", [(shared, int), (other[0], int)])
+        Book = make_dataclass("Book", [(other[1], int), ("title", int)])
+        BookDTO = make_dataclass("BookDTO", [(other[1], int), ("title", int), ("author", AuthorDTO), (shared, int)])
+        BookDTO2 = make_dataclass("BookDTO2", [(other[1], int), ("title", int), ("writer", AuthorDTO), (shared, int)])
+        ns = {"Book": Book, "Author": Author, "BookDTO": BookDTO, "BookDTO2": BookDTO2}
+        exec(f"def by_name(book: Book, author: Author, {shared}: int) -> BookDTO: ...\n"  # noqa: S102
+             f"def by_link(book: Book, who: Author, {shared}: int) -> BookDTO2: ...\n"
+             f"def by_param(book: Book, author: Author, {shared}: int) -> BookDTO: ...", ns)
+        cases = [
+            ("by-name", lambda: impl_converter(ns["by_name"]), lambda b, a, x: BookDTO(getattr(b, other[1]), b.title, AuthorDTO(getattr(a, shared), getattr(a, other[0])), x)),
+            ("by-link", lambda: impl_converter(recipe=[link(from_param("who"), P[BookDTO2].writer)])(ns["by_link"]),
+             lambda b, a, x: BookDTO2(getattr(b, other[1]), b.title, AuthorDTO(getattr(a, shared), getattr(a, other[0])), x)),
+            ("from-param-reaches-nested", lambda: impl_converter(recipe=[link(from_param(shared), P[AuthorDTO][shared])])(ns["by_param"]),
+             lambda b, a, x: BookDTO(getattr(b, other[1]), b.title, AuthorDTO(x, getattr(a, other[0])), x)),
+        ]
+        for label, mk, want in cases:
+            try:
+                conv = mk()
+            except Exception as e:  # noqa: BLE001
+                report(f"model-param:creation:{label}", f"creating the converter raises {type(e).__name__}: {str(e)[:160]}", shared_name=shared)
+                continue
+            b, a, x = Book(r.randint(1, 9), r.randint(10, 19)), Author(r.randint(20, 29), r.randint(30, 39)), r.randint(900, 999)
+            n += 1
+            try:
+                got = conv(b, a, x)
+            except Exception as e:  # noqa: BLE001
+                got = f"raises {type(e).__name__}: {str(e)[:80]}"
+            exp = want(b, a, x)
+            if got != exp:
+                report(f"model-param:{label}", "a nested destination model built from an extra parameter that is a model: its fields "
+                       f"must come from the same-named fields of that parameter (parameter {shared!r} of the same name is for the "
+                       "top-level field only; from_param reaches any level)", book=repr(b), author=repr(a), parameter=x,
+                       expected=repr(exp), got=repr(got))
+    return n
+
+
 def run(rep, tier, seed):
     from adaptix import ProviderNotFoundError
     from adaptix.conversion import impl_converter
@@ -439,7 +547,7 @@ def run(rep, tier, seed):
     for k, err in ev.errors:
         rep.violation("coq-eval-error", "harness-error", {"what": err[-1500:]}, no_input=True)
     lookalike_constants(rep)
-    n_cont = container_block(rep, r, tier)
+    n_cont = container_block(rep, r, tier) + same_class_and_model_params_block(rep, r, tier)
     rep.cov.update({
         "evaluations": stats["runs"] + stats["no_converter"] + n_cont,
         "distinct_nontrivial": stats["programs"] - stats["no_converter"],
